@@ -438,7 +438,8 @@ def exec (st : St) (task cmd : String) : St :=
       match st.lastBidi with
       | some c => ({ st with connect := some c, accepted := true }).log1
           s!"conn.WT=ok:connect={c}:session={acceptedSessionId c}"
-      | none => st
+      -- no request to accept: `accept()` waits (the generators always deliver the CONNECT request first)
+      | none => block st task (.forever "WT")
     | "sid" =>
       match st.connect with
       | some c => st.log1 s!"conn.sid={acceptedSessionId c}"
